@@ -12,11 +12,8 @@ OutOK(eo, r) == CASE eo \in {"?", "L:"} -> TRUE
                   [] eo = "none" -> ~r.has_out
                   [] eo = "none-or-false" -> ~r.has_out \/ r.out = "false"
                   [] eo = "=" -> ~r.has_out \/ r.out = ""
-                  [] eo = "=x" -> r.has_out /\ r.out = "x"
-                  [] eo = "=xx" -> r.has_out /\ r.out = "xx"
-                  [] eo = "=xxx" -> r.has_out /\ r.out = "xxx"
-                  [] OTHER -> IF eo \in {"=" \o Base[p] : p \in Paths} \cup {"=" \o Parent[p] : p \in Paths} THEN r.has_out /\ ("=" \o r.out) = eo
-                              ELSE r.has_out /\ r.out = eo
+                  \* "=<text>": exactly that text; anything else ("true", "false", a number): that output
+                  [] OTHER -> r.has_out /\ (("=" \o r.out) = eo \/ r.out = eo)
 ListOK(op, t, r) == op.cmd # "ls" \/ LET want == IF Kind(t, op.a[1]) = "dir" THEN {Base[q] : q \in Children(t, op.a[1])} ELSE {} IN
                         {r.listing[i] : i \in 1..Len(r.listing)} = want /\ Len(r.listing) = Cardinality(want)
 Step == /\ l <= Len(Rec) /\ l' = l + 1
